@@ -163,7 +163,14 @@ pub fn gen_market(r: &mut Rng) -> Market {
 /// cast down from an order-2 matrix without a rebuild); its values may differ in the last bit from a
 /// first-order build (see DESIGN 9.3, C16)
 pub fn gen_fxrates(r: &mut Rng) -> (FXRates, Market, usize, usize, bool) {
+    let (a, b, c, d, e, _) = gen_fxrates_h(r);
+    (a, b, c, d, e)
+}
+
+/// as gen_fxrates, plus the number of update attempts that had to be refused
+pub fn gen_fxrates_h(r: &mut Rng) -> (FXRates, Market, usize, usize, bool, usize) {
     let mut hist = 0usize;
+    let mut refused = 0usize;
     // (order, descends from a second-order computation) of the matrix currently held
     let mut st: (usize, bool) = (1, false);
     let step = |st: &mut (usize, bool), to: usize| {
@@ -183,7 +190,20 @@ pub fn gen_fxrates(r: &mut Rng) -> (FXRates, Market, usize, usize, bool) {
     // half of the objects have lived a little before being saved: quote updates and order switches
     if r.chance(0.5) {
         for _ in 0..1 + r.usize(3) {
-            if r.chance(0.7) {
+            if r.chance(0.25) {
+                // an update that must be refused and must leave the object as it was: a pair the market does not
+                // quote (inverted or foreign), or one quote moved to another settlement date than the others
+                let q = m.quotes[r.usize(m.quotes.len())].clone();
+                let (l, rr, st) = match r.below(3) {
+                    0 if m.quotes.len() >= 2 => (m.ccys[q.lhs].clone(), m.ccys[q.rhs].clone(), Some(q.settlement.unwrap_or(20000) + 1 + r.range_i(0, 5))),
+                    1 => (m.ccys[q.rhs].clone(), m.ccys[q.lhs].clone(), q.settlement),
+                    _ => ("xof".to_string(), m.ccys[q.lhs].clone(), q.settlement),
+                };
+                if let Ok(x) = rateslib::fx::rates::FXRate::try_new(&l, &rr, rateslib::dual::Number::F64(r.uniform(0.5, 2.0)), st.map(crate::calmodel::to_ndt)) {
+                    let _ = fx.update(vec![x]);
+                    refused += 1;
+                }
+            } else if r.chance(0.7) {
                 let k = 1 + r.usize(m.quotes.len());
                 let mut ids: Vec<usize> = (0..m.quotes.len()).collect();
                 r.shuffle(&mut ids);
@@ -216,7 +236,7 @@ pub fn gen_fxrates(r: &mut Rng) -> (FXRates, Market, usize, usize, bool) {
     let order = r.usize(3);
     let _ = fx.set_ad_order([ADOrder::Zero, ADOrder::One, ADOrder::Two][order]);
     step(&mut st, order);
-    (fx, m, order, hist, st.1)
+    (fx, m, order, hist, st.1, refused)
 }
 
 pub struct CurveObj {
